@@ -280,6 +280,9 @@ class VFJob:
                 got, exp = cv.obs_val(o.get("val")), cv.exp_val(v)
             if got != exp:
                 return "%s %s is %s, not %s" % (kind, name, json.dumps(got)[:80], json.dumps(exp)[:80])
+            np_ = cv.numb_problem(o.get("val")) if kind != "pk" else next((cv.numb_problem(x) for n, x in o.get("pkt", []) if cv.numb_problem(x)), None)
+            if np_:
+                return "%s %s: %s" % (kind, name, np_)
         return None
 
     def judge(self, k, outs, it, ir):
@@ -320,8 +323,19 @@ class VFJob:
         return True, site, sym
 
 
+def vkind(state, e):
+    """kind of the value a call operates on and of its argument (numbers with an su are a kind of their own: they own one
+    more string), so that the selection covers every kind for every operation"""
+    def k(d):
+        v = state["roots"].get(d) if d else None
+        if not isinstance(v, dict) or v.get("k") in (None, "none"):
+            return "-"
+        return "numb+su" if v.get("k") == "numb" and "(" in v.get("t", "") else v["k"]
+    return (k(e.get("v")), k(e.get("arg")))
+
+
 def value_jobs(tier, rnd):
-    base = dict(slots="Slots2", refs="Refs1", texts=["a"], keys=["k", "e1", "e2", "bad"], pnames=["_x", "_X", "bad"], kinds=["char", "numb", "list", "table", "unk"], maxlist=2, maxentries=2, maxdepth=2, maxhist=3)
+    base = dict(slots="Slots2", refs="Refs1", texts=["a"], keys=["k", "e1", "e2", "bad"], pnames=["_x", "_X", "bad"], kinds=["char", "numb", "list", "table", "unk"], maxlist=2, maxentries=2, maxdepth=2, maxhist=3, numtexts=["1.5(2)"])
     plans = [("values", dict(base)), ("packets", dict(base, kinds=["char", "list"], keys=["k"], pnames=["_x", "_X", "_y", "bad"]))]
     if tier != "quick":
         plans = [("values", dict(base, maxhist=4)), ("packets", dict(base, kinds=["char", "list"], keys=["k"], pnames=["_x", "_X", "_y", "bad"], maxhist=4)),
@@ -340,7 +354,7 @@ def value_jobs(tier, rnd):
                 states[json.dumps(o["h"], sort_keys=True)] = o["s"]
                 for e in o["probes"]:
                     if "rc" in e:
-                        classes[(e["op"], e.get("f"), e.get("rc"), True, e.get("kind"), bool(e.get("into")))].append((o["h"], o["s"], e, o["s"]))
+                        classes[(e["op"], e.get("f"), e.get("rc"), True, e.get("kind"), bool(e.get("into")), vkind(o["s"], e))].append((o["h"], o["s"], e, o["s"]))
             else:
                 edges.append(o)
         cleanup(wd)
@@ -349,7 +363,7 @@ def value_jobs(tier, rnd):
             src = states.get(json.dumps(h, sort_keys=True))
             if src is None or "rc" not in e:
                 continue
-            classes[(e["op"], e.get("f"), e.get("rc"), False, e.get("kind"), bool(e.get("into")))].append((h, src, e, o["s"]))
+            classes[(e["op"], e.get("f"), e.get("rc"), False, e.get("kind"), bool(e.get("into")), vkind(src, e))].append((h, src, e, o["s"]))
         for shape in sorted(classes, key=lambda x: json.dumps(x)):
             cand = classes[shape]
             for h, s1, e, s2 in rnd.sample(cand, min(per_class, len(cand))):
